@@ -268,7 +268,9 @@ func typeMethodFinder(p *Prog, name string) *ssa.Function {
 				return recvIs(f, a.ObjIndex) && sigIs(f, "sod.Object", "error") && c.Of(f).Has(EErrUnique) && !c.Of(f).Has(EIdxWLive)
 			})
 		case "control":
-			return unique(p, func(f *ssa.Function) bool { return recvIs(f, a.ObjIndex) && sigIs(f, "", "error") && f.Name() != "UnmarshalJSON" })
+			return unique(p, func(f *ssa.Function) bool {
+				return recvIs(f, a.ObjIndex) && sigIs(f, "", "error") && f.Name() != "UnmarshalJSON"
+			})
 		case "search":
 			return unique(p, func(f *ssa.Function) bool { return recvIs(f, a.ObjIndex) && hasSearchSig(f) })
 		}
@@ -301,9 +303,13 @@ func typeMethodFinder(p *Prog, name string) *ssa.Function {
 				return recvIs(f, a.IndexedField) && len(paramTypes(f)) == 2 && paramTypes(f)[0] == "string" && strings.Join(resultTypes(f), ",") == "bool"
 			})
 		case "valueTypeString":
-			return unique(p, func(f *ssa.Function) bool { return recvIs(f, a.IndexedField) && sigIs(f, "", "string") && f.Name() != "String" })
+			return unique(p, func(f *ssa.Function) bool {
+				return recvIs(f, a.IndexedField) && sigIs(f, "", "string") && f.Name() != "String"
+			})
 		case "valueTypeFromString":
-			return unique(p, func(f *ssa.Function) bool { return recvIs(f, a.IndexedField) && len(paramTypes(f)) == 1 && paramTypes(f)[0] == "string" })
+			return unique(p, func(f *ssa.Function) bool {
+				return recvIs(f, a.IndexedField) && len(paramTypes(f)) == 1 && paramTypes(f)[0] == "string"
+			})
 		}
 	}
 	if cons := named(a.FIConstraints.Type()); is(cons) {
